@@ -257,8 +257,10 @@ class JsonResource(Resource):
         self.process_inst(inst, eattributes)
         for feature, value in eattributes:
             if feature.iD and value is not None:
-                # references are written with the id attribute's value
-                self.uuid_dict[value] = inst
+                # references are written with the text of the id attribute's
+                # value (see Resource._build_path_from)
+                text = feature._eType.to_string(inst.eGet(feature))
+                self.uuid_dict[text] = inst
         self.process_inst(inst, containments, owning_feature)
         if ereferences:
             self._load_href[inst] = ereferences
